@@ -101,6 +101,54 @@ func loadProgram(repoDir, verifDir string) (*Program, error) {
 			P.byKey[funcKey(f)] = f
 		}
 	}
+	// every function, method and closure of the repository's packages, whether
+	// or not anything references it
+	var extra []*ssa.Function
+	defer func() {
+		sort.Slice(extra, func(i, j int) bool { return extra[i].String() < extra[j].String() })
+		for _, f := range extra {
+			if _, ok := P.funcs[f]; !ok {
+				P.nstatic++
+				P.funcs[f] = P.nstatic
+			}
+		}
+	}()
+	var addFn func(f *ssa.Function)
+	addFn = func(f *ssa.Function) {
+		if f == nil {
+			return
+		}
+		if _, ok := P.byKey[funcKey(f)]; !ok || len(f.Blocks) > 0 {
+			P.byKey[funcKey(f)] = f
+		}
+		if _, ok := P.funcs[f]; !ok {
+			extra = append(extra, f)
+		}
+		for _, a := range f.AnonFuncs {
+			addFn(a)
+		}
+	}
+	for _, sp := range prog.AllPackages() {
+		if !strings.HasPrefix(sp.Pkg.Path(), repoModule) {
+			continue
+		}
+		for _, m := range sp.Members {
+			switch x := m.(type) {
+			case *ssa.Function:
+				addFn(x)
+			case *ssa.Type:
+				for _, t := range []types.Type{x.Type(), types.NewPointer(x.Type())} {
+					ms := prog.MethodSets.MethodSet(t)
+					for i := 0; i < ms.Len(); i++ {
+						f := prog.MethodValue(ms.At(i))
+						if f != nil && f.Synthetic == "" {
+							addFn(f)
+						}
+					}
+				}
+			}
+		}
+	}
 	// named types of the repository get stable tags
 	var tn []string
 	for _, p := range pkgs {
@@ -184,6 +232,9 @@ func (P *Program) typeByName(name string) types.Type {
 // pkgByName resolves a package by its name or repo-relative path.
 func (P *Program) pkgByName(name string) *types.Package {
 	var cands []*types.Package
+	if sp, ok := P.spkgs[repoModule+"/"+name]; ok {
+		return sp.Pkg
+	}
 	for _, sp := range P.prog.AllPackages() {
 		path := sp.Pkg.Path()
 		if trimPkg(path) == name || path == name {
